@@ -59,7 +59,7 @@ func (a jsonList) diff(
 	options []Option,
 	strategy patchStrategy,
 ) Diff {
-	b, ok := n.(jsonList)
+	b, ok := dispatch(n, options).(jsonList)
 	if !ok {
 		return a.diffDifferentTypes(n, path, strategy)
 	}
